@@ -181,7 +181,9 @@ ChainRoot(t) == IF t.e = "idx" THEN ChainRoot(t.a) ELSE t
 Init0(prog, inp, budget, failAt) ==
   [K |-> <<FProg(prog, 1)>>, V |-> <<>>, env |-> <<<<>>>>, last |-> <<>>,
    act |-> <<[cf |-> "normal", ret |-> <<>>]>>, inp |-> inp, buf |-> "", rd |-> 0, failAt |-> failAt,
-   out |-> "", budget |-> budget, st |-> "run", evs |-> <<>>, acts |-> {}, steps |-> 0]
+   out |-> "", budget |-> budget, st |-> "run", evs |-> <<>>, rec |-> TRUE, acts |-> {}, steps |-> 0]
+(* the same machine without the history of snapshots (runs whose scope stacks are hundreds deep) *)
+InitQuiet(prog, inp, budget, failAt) == [Init0(prog, inp, budget, failAt) EXCEPT !.rec = FALSE]
 
 Cf(m) == m.act[Len(m.act)].cf
 SetCf(m, c) == [m EXCEPT !.act[Len(m.act)].cf = c]
@@ -299,7 +301,7 @@ Step(m) ==
          IF fr.ph = "next" THEN
            IF fr.j > Len(fr.ss) THEN [m EXCEPT !.K = rest]
            ELSE [m EXCEPT !.K = <<FStmt(fr.ss[fr.j]), FBlock(fr.ss, fr.j, "after")>> \o rest]
-         ELSE LET m1 == [m EXCEPT !.evs = Append(m.evs, Snapshot(m, fr.ss[fr.j]))] IN
+         ELSE LET m1 == IF m.rec THEN [m EXCEPT !.evs = Append(m.evs, Snapshot(m, fr.ss[fr.j]))] ELSE m IN
               IF Cf(m) # "normal" THEN [m1 EXCEPT !.K = rest]
               ELSE [m1 EXCEPT !.K = <<FBlock(fr.ss, fr.j + 1, "next")>> \o rest]
     [] k = "stmt" -> StepStmt(m, rest, fr.s)
